@@ -784,6 +784,51 @@ def generate_nearmiss(rng):
     return {"source": src, "need": need, "canaries": {}, "samples": [s.hex() for s in samples], "near_miss": True, "has_strings": True}
 
 
+def generate_nearmiss_negclass(rng):
+    """
+    Near-miss programs whose possible non-consuming cycle runs through a *negated character class*: the state in front
+    of /[^XZ].../ has an explicit multi-symbol error transition (on X and Z) instead of a plain else, the handler or the
+    statement behind it is skippable and starts with X - so on Z control may go round without consuming.  The compiler
+    must reject these or the parser must not spin.
+    """
+    r = rng
+    X, Z = r.sample([ord(c) for c in ";#,:!@"], 2)
+    more = r.choice(("", "", chr(r.choice([ord(c) for c in "~_"]))))
+    neg = "[^%s%s%s]" % (chr(X), chr(Z), more)
+    k = chr(r.choice(LETTERS[:6]))
+    body_rx = r.choice(("/%sk/", "/%sk/", "/%s/", "/%s[a-f]/", "/%s+;/", "/%sk?/", "/(%s|ab)k/")).replace("k", k) % neg
+    decl = ["out str[%d] s0;" % r.choice((2, 3, 5)), "out int n0 = 0;", "out bool b0 = false;", "hook h0;"]
+    body = r.choice(("%s;", "%s;", "s0 += %s;", "%s; h0();", "%s; n0 = [n0 + 1];")) % body_rx
+    xs = esc_str([X])
+    xx = esc_str([X, X])
+    skippable = ["optional { %s; }" % xx, "optional { %s; }" % xs, "if n0 < 3 { %s; }" % xs, "case { %s -> {} else -> {} }" % xs, "",
+                 "h0();", "n0 = [n0 + 1];", "optional { %s; } h0();" % xs, "try { %s; } catch (nomatch) { }" % xs, "delete s0;",
+                 "optional { %s; } optional { %s; }" % (xs, esc_str([Z, X]))]
+    hnd = r.choice(skippable)
+    catch = r.choice(("catch (nomatch)", "catch (nomatch)", "catch", "catch (nomatch, outofspace)"))
+    wraps = [
+        "loop { try { %s } %s { %s } }" % (body, catch, hnd),
+        "loop { try { %s } %s { %s } }" % (body, catch, hnd),
+        "loop { try { loop { %s } } %s { %s } }" % (body, catch, hnd),
+        "loop { optional { %s } %s }" % (body, hnd),
+        "loop lo { loop li { case { %s -> {} else -> { break li; } } } %s }" % (body_rx, hnd),
+        "loop { case { %s -> {} else -> { %s } } }" % (body_rx, hnd),
+        "loop { try { %s } %s { %s } %s }" % (body, catch, hnd, r.choice(skippable)),
+        "try { loop { try { %s } %s { %s } } } catch (nomatch) { h0(); }" % (body, catch, hnd),
+        "loop { try { %s %s; } %s { %s } }" % (body, xs, catch, hnd),
+    ]
+    prog = r.choice(wraps)
+    lead = r.choice(("", "", "%s; " % esc_str([r.choice(LETTERS[6:12])])))
+    src = "\n".join(decl) + "\n\nparser {\n    " + lead + prog + "\n}\n"
+    pfx = bytes([ord(lead[1])]) if lead else b""
+    a = bytes([r.choice(LETTERS[:6])])
+    kk = k.encode()
+    samples = [pfx + a + kk + bytes([Z]), pfx + bytes([Z]), pfx + a + kk + bytes([X, X]) + a + kk, pfx + a + kk + bytes([X]) + bytes([Z]),
+               pfx + bytes([X]), pfx + a + kk + a + kk + bytes([Z, Z]), pfx + a + bytes([Z]), pfx + a + kk + b";" + bytes([Z]),
+               pfx + bytes([X, Z]), pfx + a + kk + bytes([Z, X, Z])]
+    return {"source": src, "need": [], "canaries": {}, "samples": [x.hex() for x in samples], "near_miss": True, "has_strings": True}
+
+
 # ------------------------------------------------------------------ richer regexes (Glushkov first/last/follow)
 
 class RNode:
